@@ -13,8 +13,10 @@ import (
 	"flag"
 	"fmt"
 	"os"
+	"os/signal"
 	"path/filepath"
 	"strings"
+	"syscall"
 
 	"verifharness/internal/lineproto"
 	"verifharness/internal/report"
@@ -163,6 +165,7 @@ func ask(ops []string) []string {
 	ans, err := lineproto.Run(*driver, ops)
 	if err != nil {
 		fmt.Fprintln(os.Stderr, "protocheck:", err)
+		cleanupAll()
 		os.Exit(3)
 	}
 	return ans
@@ -183,12 +186,14 @@ func (c *checker) flush() {
 		}
 		if d == "" {
 			fmt.Fprintln(os.Stderr, "protocheck: driver path missing")
-			os.Exit(3)
+			cleanupAll()
+		os.Exit(3)
 		}
 		ans, err := lineproto.Run(d, ops)
 		if err != nil {
 			fmt.Fprintln(os.Stderr, "protocheck:", err)
-			os.Exit(3)
+			cleanupAll()
+		os.Exit(3)
 		}
 		for k, i := range idx {
 			p := c.pend[i]
@@ -214,6 +219,13 @@ func main() {
 		return
 	}
 	flag.Parse()
+	sigc := make(chan os.Signal, 1)
+	signal.Notify(sigc, syscall.SIGINT, syscall.SIGTERM)
+	go func() {
+		<-sigc
+		cleanupAll()
+		os.Exit(3)
+	}()
 	rep := report.New(*prop)
 	c := &checker{rep: rep}
 	r := rng.FromEnv(0x1600)
@@ -233,6 +245,7 @@ func main() {
 	cleanupAll()
 	if err := rep.Write(*out); err != nil {
 		fmt.Fprintln(os.Stderr, err)
+		cleanupAll()
 		os.Exit(3)
 	}
 }
